@@ -64,6 +64,20 @@ W_ASSUME = ["conforming reporter: throws on severity::fatal during a call, never
             "report kinds are recognised by their leading words (Appendix B of DESIGN.md); wording beyond that is not compared",
             "behaviour of an expectation after its sequence object was destroyed is unspecified: such cases degrade to memory-safety-only"]
 
+# ---------------------------------------------------------------- engine T (threads)
+def t_job(target, mode, quick, thorough, name):
+    """quick/thorough: (shards, programs, size, threads, extra args)"""
+    def instances(tier):
+        sh, n, size, th, extra = quick if tier == "quick" else thorough
+        return [dict(label="%s#%d" % (mode, i), cases=n, size=size, threads=th, extra=extra) for i in range(sh)]
+    def cmd(exe, prop, tier, seed, inst, out, rundir, excluded):
+        c = [exe, "--prop", prop, "--mode", mode, "--threads", str(inst["threads"]), "--faildir", rundir, "--out", out] + inst["extra"]
+        return c, rc_env(seed, inst["cases"], inst["size"])
+    def replay(exe, prop, path):
+        return [exe, "--prop", prop, "--replay", path, "--quiet"]
+    return dict(name=name, engine_tag="T prop=C12 mode=" + ("A" if mode == "A" else "B"), target=target, instances=instances, cmd=cmd, replay=replay,
+                timeout=dict(quick=900, thorough=5400), replay_timeout=600)
+
 Q = 6000
 PROPS = {
     "C01": dict(jobs=W([("plain", Q, 50), ("all", Q, 50)], [("plain", 40000, 90, 6), ("all", 40000, 90, 6), ("overlap", 40000, 90, 4)], [("plain", 20000, 70, 2)], fuzz=("all", 4000, 120000)),
@@ -105,6 +119,18 @@ PROPS = {
     "C17": dict(jobs=W([("trace", Q, 50), ("clauses", Q, 50)], [("trace", 40000, 90, 10), ("clauses", 40000, 90, 6)], [("trace", 20000, 70, 2)]),
                 rule=W_RULE + "non-trivial (C17): a call with >= 2 tracers alive, or a traced throwing call.",
                 assumptions=W_ASSUME + ["whether a rejected call is traced is not asserted"]),
+    "C12": dict(jobs=[t_job("t_tsan", "A", (4, 350, 40, 4, ["--reps", "3"]), (12, 4000, 60, 8, ["--reps", "4"]), "T-A(TSan)"),
+                      t_job("t_asan", "B", (2, 3000, 40, 4, []), (8, 40000, 60, 8, []), "T-B(owned schedule)"),
+                      t_job("t_asan", "E", (2, 25, 20, 3, ["--cap", "1500"]), (8, 150, 24, 3, ["--cap", "20000"]), "T-E(exhaustive schedules)"),
+                      t_job("t_tsan_gcc", "A", (0, 0, 0, 0, []), (4, 2000, 60, 6, ["--reps", "3"]), "T-A(TSan,g++)")],
+                rule="engine T: rapidcheck generates programs of 2..8 threads x 1..6 operations over shared mocks and sequences "
+                     "(thread-owned expectations, monitors, private mocks) with a prologue; mode A runs them free under ThreadSanitizer with a "
+                     "generated yield table, mode B under a generated schedule at critical-section granularity (custom recursive mutex parks threads), "
+                     "mode E enumerates every lock-order schedule of tiny programs. Oracle: TSan silent; no lock leak; every observed result, report "
+                     "and query value equals a sequential replay of the operations' events in lock (ticket) order. non-trivial = >= 2 threads touch the "
+                     "same sequence or mock function and a multi-section operation is interleaved with another thread's critical section; distinct = FNV-1a(program, mode).",
+                assumptions=["caller obligations (no destruction while another thread uses the object; no reporter installation during use) are respected by construction",
+                             "liveness beyond lock-leak detection is not checked; a stuck run ends in the job time budget and is reported as inconclusive"]),
 }
 for _p in PROPS.values():
     _p.setdefault("parallel", dict(quick=8, thorough=16))
